@@ -590,6 +590,8 @@ class HistoryGen:
             st, en = self.range_(v)
             s = self.settings()
             a = [s if len(s) != 1 or rng.random() < 0.3 else s[0]]
+            if rng.random() < 0.02:
+                a = [0]
             k = {}
             r = rng.random()
             if r < 0.15:
